@@ -153,6 +153,16 @@ Theorem C07_front_end_fallback_stable : forall (A : Type) (ltb : A -> A -> bool)
 Proof. exact @pmwm_fallback_stable. Qed.
 Print Assumptions C07_front_end_fallback_stable.
 
+(** no sequences at all (seqs_begin == seqs_end): every front end returns the target, nothing is written *)
+Theorem C07_no_sequences : forall (A : Type) (ltb : A -> A -> bool)
+    (partition : list (list A) -> Z -> list nat)
+    (seqmerge : bool -> option (list A) -> list (list A) -> nat -> list A * list nat)
+    sw stable sentinels sampling size p os,
+  pmwm ltb partition seqmerge sw stable sentinels sampling [] size p os =
+  Some {| p_threads := []; p_cursors := []; p_ret := 0 |}.
+Proof. exact @pmwm_no_sequences. Qed.
+Print Assumptions C07_no_sequences.
+
 (** the hypotheses are satisfiable: the reference merge meets [seqmerge_stable_spec] for every comparator,
     and a worked instance with ties across the sequences discharges everything. *)
 Theorem C07_seqmerge_spec_satisfiable : forall (A : Type) (ltb : A -> A -> bool),
